@@ -31,6 +31,7 @@ import (
 	"strconv"
 	gosync "sync"
 	"sync/atomic"
+	"syscall"
 	"testing"
 	"time"
 )
@@ -42,7 +43,7 @@ type c08Ev struct {
 	Op  string `json:"op,omitempty"`
 	Res string `json:"res,omitempty"`
 	C   int    `json:"c"`
-	St  int    `json:"st"`
+	Eq  int    `json:"eq"` // fail event: 1 the raw lock word was the same before and after the failed try, 0 it differed, -1 not measured
 	N0  int    `json:"n0"` // nb event: the 4 bytes behind the lock word before / after the case
 	N1  int    `json:"n1"`
 }
@@ -79,15 +80,11 @@ func c08Deadline() time.Duration {
 	return 20 * time.Second
 }
 
-// The only lock-word value with a fixed meaning is 0 = free (the zero value of the struct); how "held" is
-// encoded is the implementation's business.  The trace therefore carries the class of the word, not the word:
-// 0 free, 1 non-zero (this also keeps it clear of the JSON reader's 2^31 limit).
-func c08LockWord(l *Spinlock) int {
-	if atomic.LoadUint32(&l.state) == 0 {
-		return 0
-	}
-	return 1
-}
+// How the lock word encodes "held" and "free" is the implementation's business (0/1 today; a generation count
+// with a held bit would be just as good).  The harness therefore never interprets the word: whether the lock is
+// free is observed through the lock's own API (an observer's TryToAcquire, released again at once), and the raw
+// word is only ever compared with itself, for equality, around a try-acquire that failed.
+func c08Raw(l *Spinlock) uint32 { return atomic.LoadUint32(&l.state) }
 
 // An assembly routine with a frame of its own has no stack maps; a garbage collection (or stack copy) that
 // finds a goroutine parked inside it - it calls yieldFn = runtime.Gosched - aborts the process.  That is an
@@ -124,7 +121,44 @@ type c08Case struct {
 
 func (cs *c08Case) emit(e c08Ev) { cs.enc.Encode(e); *cs.n++ }
 
-func (cs *c08Case) probe() { cs.emit(c08Ev{K: "probe", St: c08LockWord(cs.lock)}) }
+// quiet: no blocking Acquire is in flight, so nobody but the caller can touch the lock word right now
+func (cs *c08Case) quiet() bool {
+	for _, w := range cs.w {
+		if w.pending && atomic.LoadInt32(&w.done) == 0 {
+			return false
+		}
+	}
+	return true
+}
+
+func c08Same(measured bool, a, b uint32) int {
+	if !measured {
+		return -1
+	}
+	if a == b {
+		return 1
+	}
+	return 0
+}
+
+// probe: an observer (task 0) tries the lock and, if it got it, gives it back at once.  These are ordinary lock
+// operations and are recorded as such; the specification says what their outcome may be.
+func (cs *c08Case) probe() {
+	quiet, before := cs.quiet(), c08Raw(cs.lock)
+	if cs.lock.TryToAcquire() {
+		c := cs.counter
+		cs.emit(c08Ev{K: "call", T: 0, Op: "try", Res: "ok"})
+		cs.emit(c08Ev{K: "ok", T: 0, C: c})
+		cs.counter = c + 1
+		cs.emit(c08Ev{K: "rel", T: 0})
+		cs.lock.Release()
+		cs.emit(c08Ev{K: "relret", T: 0})
+		return
+	}
+	after := c08Raw(cs.lock)
+	cs.emit(c08Ev{K: "call", T: 0, Op: "try", Res: "fail"})
+	cs.emit(c08Ev{K: "fail", T: 0, Eq: c08Same(quiet && cs.quiet(), before, after)})
+}
 
 func (cs *c08Case) run(w *c08Worker) {
 	for cmd := range w.cmd {
@@ -251,6 +285,7 @@ func (cs *c08Case) replay(sched [][2]interface{}, grace time.Duration) bool {
 			}
 			continue
 		case "try":
+			quiet, before := cs.quiet(), c08Raw(cs.lock)
 			w.cmd <- "try"
 			ok, back := cs.waitReply(w)
 			if !back {
@@ -264,7 +299,7 @@ func (cs *c08Case) replay(sched [][2]interface{}, grace time.Duration) bool {
 				atomic.StoreInt32(&w.done, 1)
 			} else {
 				cs.emit(c08Ev{K: "call", T: t, Op: "try", Res: "fail"})
-				cs.emit(c08Ev{K: "fail", T: t})
+				cs.emit(c08Ev{K: "fail", T: t, Eq: c08Same(quiet && cs.quiet(), before, c08Raw(cs.lock))})
 			}
 		case "srel":
 			cs.emit(c08Ev{K: "srel", T: t})
@@ -330,7 +365,7 @@ func (cs *c08Case) finish() bool {
 func TestVerifC08Sched(t *testing.T) {
 	defer func(f func()) { yieldFn = f }(yieldFn)
 	yieldFn = runtime.Gosched
-	defer debug.SetGCPercent(debug.SetGCPercent(-1))
+	debug.SetGCPercent(-1) // see c08QuiescentGC; not restored: the test binary runs exactly one of these tests
 	in, err := os.Open(os.Getenv("CASES"))
 	if err != nil {
 		t.Fatal(err)
@@ -391,7 +426,10 @@ func TestVerifC08Sched(t *testing.T) {
 			// a goroutine is lost inside the lock: stop, the runner reports "inconclusive"
 			// unless the events written so far already contradict the specification
 			enc.Encode(c08Ev{K: "stuck"})
-			break
+			// goroutines are lost inside the lock: leave without giving the runtime a chance to wait for them
+			bw.Flush()
+			out.Close()
+			syscall.Exit(0)
 		}
 	}
 	os.Stdout.WriteString("VERIF-STATS cases=" + strconv.Itoa(ncases) + " events=" + strconv.Itoa(nev) + "\n")
@@ -402,7 +440,7 @@ func TestVerifC08Sched(t *testing.T) {
 func TestVerifC08Stress(t *testing.T) {
 	defer func(f func()) { yieldFn = f }(yieldFn)
 	yieldFn = runtime.Gosched
-	defer debug.SetGCPercent(debug.SetGCPercent(-1))
+	debug.SetGCPercent(-1) // see c08QuiescentGC; not restored: the test binary runs exactly one of these tests
 	seed, _ := strconv.ParseInt(os.Getenv("VERIF_SEED"), 10, 64)
 	nwin, _ := strconv.Atoi(os.Getenv("NWIN"))
 	nops, _ := strconv.Atoi(os.Getenv("NOPS"))
@@ -508,7 +546,7 @@ func TestVerifC08Stress(t *testing.T) {
 							counter = c + 1
 							got = true
 						} else {
-							local = append(local, c08Ev{Seq: atomic.AddInt64(&seq, 1), K: "fail", T: th})
+							local = append(local, c08Ev{Seq: atomic.AddInt64(&seq, 1), K: "fail", T: th, Eq: -1})
 							local[ci].Res = "fail"
 						}
 					} else {
@@ -538,8 +576,8 @@ func TestVerifC08Stress(t *testing.T) {
 		case <-time.After(c08Deadline()):
 			enc.Encode(c08Ev{K: "stuck"})
 			bw.Flush()
-			os.Stdout.WriteString("VERIF-STATS windows=" + strconv.Itoa(w) + " events=" + strconv.Itoa(total) + " stuck=1\n")
-			return
+			out.Close()
+			syscall.Exit(0)
 		}
 		if stray { // every thread has stopped and released what it took: the lock is free again
 			s0 := atomic.AddInt64(&seq, 1)
@@ -557,7 +595,7 @@ func TestVerifC08Stress(t *testing.T) {
 				post = append(post, c08Ev{Seq: atomic.AddInt64(&seq, 1), K: "relret", T: 16})
 			} else {
 				post[2].Res = "fail"
-				post = append(post, c08Ev{Seq: atomic.AddInt64(&seq, 1), K: "fail", T: 16})
+				post = append(post, c08Ev{Seq: atomic.AddInt64(&seq, 1), K: "fail", T: 16, Eq: -1})
 			}
 		}
 		evs := append([]c08Ev{}, pre...)
@@ -567,7 +605,6 @@ func TestVerifC08Stress(t *testing.T) {
 		}
 		sort.Slice(evs, func(i, j int) bool { return evs[i].Seq < evs[j].Seq })
 		for _, e := range evs {
-			e.St = -1
 			enc.Encode(e)
 		}
 		enc.Encode(c08Ev{K: "nb", N0: nb0, N1: c08Neighbour(cell)})
